@@ -110,6 +110,7 @@ struct Endpoint {
         }
     }
     size_t cpp_size = 0;
+    int keypath = 0; // C++ families: 0 default constructor + set_key(full length), 1 key constructor (re-keying constructs anew)
 };
 
 template <class T> static ascon::aead *make_cpp(Endpoint &e)
@@ -117,6 +118,17 @@ template <class T> static ascon::aead *make_cpp(Endpoint &e)
     static_assert(sizeof(T) <= sizeof(e.cppmem), "cppmem too small");
     e.cpp_size = sizeof(T);
     return new (e.cppmem) T();
+}
+// keying path 1: the key constructor (the ISAP classes take (key, length))
+template <class T> static ascon::aead *make_cpp_k(Endpoint &e, const uint8_t *k)
+{
+    e.cpp_size = sizeof(T);
+    return new (e.cppmem) T(k);
+}
+template <class T> static ascon::aead *make_cpp_kl(Endpoint &e, const uint8_t *k, size_t len)
+{
+    e.cpp_size = sizeof(T);
+    return new (e.cppmem) T(k, len);
 }
 
 static void ep_key_objects(Endpoint &e, bool re)
@@ -140,6 +152,25 @@ static void ep_key_objects(Endpoint &e, bool re)
         else ascon80pq_isap_aead_init(&e.u.ik80, k);
         break;
     case CPP_AEAD: case CPP_MASK: case CPP_SIV: case CPP_ISAP:
+        if (e.keypath == 1) {
+            if (re) e.cpp->~aead();
+            switch (e.fam) {
+            case CPP_AEAD * 3 + 0: e.cpp = make_cpp_k<ascon::aead128>(e, k); break;
+            case CPP_AEAD * 3 + 1: e.cpp = make_cpp_k<ascon::aead128a>(e, k); break;
+            case CPP_AEAD * 3 + 2: e.cpp = make_cpp_k<ascon::aead80pq>(e, k); break;
+            case CPP_MASK * 3 + 0: e.cpp = make_cpp_k<ascon::aead128_masked>(e, k); break;
+            case CPP_MASK * 3 + 1: e.cpp = make_cpp_k<ascon::aead128a_masked>(e, k); break;
+            case CPP_MASK * 3 + 2: e.cpp = make_cpp_k<ascon::aead80pq_masked>(e, k); break;
+            case CPP_SIV * 3 + 0: e.cpp = make_cpp_k<ascon::siv128>(e, k); break;
+            case CPP_SIV * 3 + 1: e.cpp = make_cpp_k<ascon::siv128a>(e, k); break;
+            case CPP_SIV * 3 + 2: e.cpp = make_cpp_k<ascon::siv80pq>(e, k); break;
+            case CPP_ISAP * 3 + 0: e.cpp = make_cpp_kl<ascon::isap128>(e, k, e.key.size()); break;
+            case CPP_ISAP * 3 + 1: e.cpp = make_cpp_kl<ascon::isap128a>(e, k, e.key.size()); break;
+            default: e.cpp = make_cpp_kl<ascon::isap80pq>(e, k, e.key.size()); break;
+            }
+            if (re) { uint8_t n[16]; store128(n, e.model); e.cpp->set_nonce(n, 16); } // a new object starts at nonce 0: restore the one in use
+            break;
+        }
         if (!re) {
             switch (e.fam) {
             case CPP_AEAD * 3 + 0: e.cpp = make_cpp<ascon::aead128>(e); break;
@@ -156,7 +187,6 @@ static void ep_key_objects(Endpoint &e, bool re)
             default: e.cpp = make_cpp<ascon::isap80pq>(e); break;
             }
         }
-        // keying path known to be sound on the pinned tree: default construct + set_key(full length)
         e.cpp->set_key(k, e.key.size());
         break;
     default: break;
@@ -180,9 +210,10 @@ static void ep_push_nonce(Endpoint &e)
     }
 }
 
-static void ep_setup(Endpoint &e, int fam, const Bytes &key, const uint8_t nonce[16])
+static void ep_setup(Endpoint &e, int fam, const Bytes &key, const uint8_t nonce[16], int keypath = 0)
 {
     e.fam = fam;
+    e.keypath = keypath;
     e.key = key;
     memcpy(e.nonce, nonce, 16);
     e.model = load128(nonce);
@@ -379,7 +410,7 @@ struct ChannelWorld : World {
             int s = (int)r.below(nsess);
             if (!live[s]) {
                 int fam = only ? atoi(only) * 3 + (int)r.below(3) : (int)r.below(NFAM);
-                pl.add("sess", {s, fam, (int64_t)(r.next() >> 1), (int64_t)r.below(17)});
+                pl.add("sess", {s, fam, (int64_t)(r.next() >> 1), (int64_t)r.below(17), (int64_t)r.below(4)});
                 live[s] = true; sent[s] = 0;
                 continue;
             }
@@ -403,7 +434,7 @@ struct ChannelWorld : World {
                                         : r.pickv({0, 1, 7, 8, 12, 15, 16, 17, 24});
                 pl.add("nonce", {s, (int64_t)r.below(3), kind, arg, (int64_t)(r.next() >> 1)});
             } else if (c < 93) {
-                pl.add("storm", {s, (int64_t)r.below(8), (int64_t)r.below(4), (int64_t)(r.next() >> 1)});
+                pl.add("storm", {s, (int64_t)r.below(8), (int64_t)r.below(4), (int64_t)(r.next() >> 1), (int64_t)r.below(2)});
             } else if (c < 96) {
                 pl.add("sync", {s});
             } else {
@@ -480,8 +511,10 @@ struct ChannelWorld : World {
         Bytes key = bytes_of(fam_keylen(S.fam), op.u(2) ^ c.salt);
         uint8_t n[16];
         make_nonce(n, op.u(2), (unsigned)op.u(3));
-        ep_setup(S.A, S.fam, key, n);
-        ep_setup(S.B, S.fam, key, n);
+        int kp = is_cpp(S.fam) ? (int)(op.u(4) % 2) : 0;
+        ep_setup(S.A, S.fam, key, n, kp);
+        ep_setup(S.B, S.fam, key, n, is_cpp(S.fam) ? (int)((op.u(4) >> 1) % 2) : 0);
+        if (c.record && kp) c.run->probe("cpp.key_constructor");
         if (c.record) c.run->state(fmt("sess/%d/%u", S.fam, (unsigned)(op.u(3) % 17)));
     }
 
@@ -593,7 +626,9 @@ struct ChannelWorld : World {
         c.run->fold_u64((uint64_t)(int64_t)(r < 0 ? -1 : 0));
         c.run->fold_bytes(accept ? m_out : Bytes());
         std::string site = fam_name(B.fam) + "." + how;
-        if (is_cpp(B.fam)) return accept; // C++ objects are judged for C14 by the caller
+        // A C++ session object carries its own nonce history: what it accepts after a history is judged for C14 by the
+        // caller.  A storm delivery goes through a fresh object under an explicit nonce, so the ledger applies as it is.
+        if (is_cpp(B.fam) && strcmp(how, "storm") != 0) return accept;
         if (hit) {
             if (!accept) c.run->violation("C02", "rejects_authentic", site, fmt("clen=%zu adlen=%zu result=%d", x.size(), ad.size(), r));
             else {
@@ -800,7 +835,6 @@ struct ChannelWorld : World {
     {
         Session &S = c.S[op.u(0) % NSESS];
         if (!S.live || S.ledger.empty()) return;
-        if (is_cpp(S.fam)) return;
         const Packet &p = S.ledger[op.u(1) % S.ledger.size()];
         if (p.ct.size() > 64 + 16 && !c.run->thorough) return;
         if (p.ct.size() > 200 + 16) return;
@@ -820,7 +854,7 @@ struct ChannelWorld : World {
             else if (what == 2) n[bit / 8] ^= 1u << (bit % 8);
             else key[bit / 8] ^= 1u << (bit % 8);
             Endpoint E;
-            ep_setup(E, S.fam, key, n);
+            ep_setup(E, S.fam, key, n, is_cpp(S.fam) ? (int)(op.u(4) % 2) : 0);
             Bytes m_out;
             size_t ml = 0;
             bool wiped = false;
